@@ -70,6 +70,8 @@ Next == depth < MaxDepth /\
              a \in Net1 /\ ForeignTraffic(m, a) /\ Step([a |-> "foreign", m |-> m, ip |-> a, ips |-> Sym(a)])
         \/ PurgeHosts /\ Step([a |-> "purge"])
         \/ WithRestart /\ Restart /\ Step([a |-> "restart"])
+        \/ WithRestart /\ Reload /\ Step([a |-> "reload"])
+        \/ WithRestart /\ lease # [j \in CIDs |-> Nil] /\ Reconf /\ Step([a |-> "reconf"])
 
 Spec == MCInit /\ [][Next]_mcvars
 
